@@ -112,11 +112,18 @@ OpenSync(c, res, fr) ==
           /\ UNCHANGED <<opened, accepted, live, delPend, advMax, next, peerMax, liveOut, acceptQ, closed, err>>
 
 \* the head of the queue is served once credit is there (a blocked call returns)
-ServeOpen(c, res) ==
+\* fr: STREAMS_BLOCKED frames seen since the previous event (a caller that arrived behind the waiters reports the limit)
+ServeOpen(c, res, fr) ==
   /\ ~closed /\ queue # <<>> /\ c = Head(queue) /\ next <= peerMax
   /\ res = next /\ next' = next + 1 /\ liveOut' = liveOut \cup {next}
   /\ queue' = Tail(queue)
-  /\ UNCHANGED <<opened, accepted, live, delPend, advMax, peerMax, acceptQ, blockedAt, closed, err>>
+  /\ BlockedOK(fr, {peerMax}) /\ NoteBlocked(fr)
+  /\ UNCHANGED <<opened, accepted, live, delPend, advMax, peerMax, acceptQ, closed, err>>
+
+\* nothing moves any more; fr: STREAMS_BLOCKED frames that turned up since the last event
+Quiet(fr) ==
+  /\ BlockedOK(fr, {peerMax}) /\ NoteBlocked(fr)
+  /\ UNCHANGED <<opened, accepted, live, delPend, advMax, next, peerMax, liveOut, queue, acceptQ, closed, err>>
 
 \* a waiting caller's context is cancelled
 CancelOpen(c) ==
